@@ -25,19 +25,19 @@ static const char *KINDN[NKINDS] = { "bits-a8r8g8b8", "bits-r5g6b5", "bits-c8-in
 #define IS_BITS(k) ((k) <= K_C8)
 
 enum { F_XF, F_FIL, F_REP, F_CLIP, F_CSRC, F_CCL, F_AMAP, F_CA, F_ACC, F_DITH, F_DOFF, F_PAL, NFIELDS };
-static const int NVAL[NFIELDS] = { 7, 4, 4, 3, 2, 2, 3, 2, 2, 3, 2, 2 };
+static const int NVAL[NFIELDS] = { 8, 6, 4, 4, 2, 2, 3, 2, 2, 3, 2, 3 };
 static const char *FIELDN[NFIELDS] = { "set_transform", "set_filter", "set_repeat", "set_clip_region", "set_source_clipping", "set_has_client_clip",
                                        "set_alpha_map", "set_component_alpha", "set_accessors", "set_dither", "set_dither_offset", "set_indexed" };
-static const char *VALN[NFIELDS][7] = {
-    { "NULL", "identity", "scale2", "rot90", "translate(.5,.5)", "scale(2,1)", "homogeneous(2,2,2)" },
-    { "nearest", "bilinear", "convolution3x3", "separable" },
+static const char *VALN[NFIELDS][8] = {
+    { "NULL", "identity", "scale2", "rot90", "translate(.5,.5)", "scale(2,1)", "homogeneous(2,2,2)", "translate(.5,1.5)" },
+    { "nearest", "bilinear", "convolution3x3", "separable", "convolution3x3-B(same header and first row, other later coefficients)", "separable-B(same header and prefix, other last weights)" },
     { "none", "normal", "pad", "reflect" },
-    { "none", "r1(region32: 1,1-4,3)", "r2(region16: 0,0-3,2 + 2,2-5,4)" },
+    { "none", "r1(region32: 1,1-4,3)", "r2(region16: 0,0-3,2 + 2,2-5,4)", "r3(region32: 0,0-5,1 + 0,1-2,4; same extents and rectangle count as r2)" },
     { "off", "on" }, { "off", "on" },
     { "none", "m@(0,0)", "m@(1,0)" },
     { "off", "on" }, { "off", "on(xor-1 read/write callbacks)" },
     { "none", "ordered-bayer-8", "ordered-blue-noise-64" }, { "(0,0)", "(1,2)" },
-    { "p1", "p2" },
+    { "p1", "p2", "p3(= p1 in the first half of both tables)" },
 };
 typedef struct { uint8_t v[NFIELDS]; } ast_t;
 typedef struct { uint8_t f, v; } trans_t;
@@ -50,8 +50,8 @@ typedef struct { uint8_t f, v; } trans_t;
 static const char *PROBEN[NPROBE] = { "as-source-SRC", "as-source-OVER", "as-mask", "as-dest-OVER", "as-dest-ATOP-masked", "as-source-OVER-inside", "as-mask-inside" };
 
 /* ---------------------------------------------------------------- read-only context (built before the workers fork) */
-static pixman_fixed_t *sep_params; static int sep_n;
-static pixman_indexed_t *pal[2];
+static pixman_fixed_t *sep_params, *sep_params_b; static int sep_n;
+static pixman_indexed_t *pal[3];
 static uint32_t pristine[NKINDS][LW * LH + 8];     /* raw words of L's pixel buffer */
 static uint8_t pristine_a[LH * 8];                 /* alpha map a8, stride 8 */
 static int lstride[NKINDS], lbpp[NKINDS];
@@ -76,7 +76,12 @@ static void make_palette(pixman_indexed_t *p, int which)
 static void ctx_init(void)
 {
     sep_params = pixman_filter_create_separable_convolution(&sep_n, 0x18000, 0x14000, PIXMAN_KERNEL_LINEAR, PIXMAN_KERNEL_LINEAR, PIXMAN_KERNEL_BOX, PIXMAN_KERNEL_BOX, 1, 1);
-    for (int w = 0; w < 2; w++) { pal[w] = malloc(sizeof(pixman_indexed_t)); make_palette(pal[w], w); }
+    /* second separable table: identical header and identical leading weights, only the last y-phase row differs (sum preserved) */
+    sep_params_b = malloc(sizeof(pixman_fixed_t) * (size_t)sep_n); memcpy(sep_params_b, sep_params, sizeof(pixman_fixed_t) * (size_t)sep_n);
+    sep_params_b[sep_n - 1] -= 0x1800; sep_params_b[sep_n - 2] += 0x1800;
+    for (int w = 0; w < 3; w++) { pal[w] = malloc(sizeof(pixman_indexed_t)); make_palette(pal[w], w == 1); }
+    for (int i = 128; i < 256; i++) pal[2]->rgba[i] = pal[1]->rgba[i];
+    for (int i = 16384; i < 32768; i++) pal[2]->ent[i] = pal[1]->ent[i];
     for (int k = 0; k < 3; k++) {
         lbpp[k] = PIXMAN_FORMAT_BPP(LFMT[k]); lstride[k] = ph_stride_for(lbpp[k], LW) + 4;
         memset(pristine[k], 0x5a, sizeof pristine[k]);
@@ -133,12 +138,14 @@ static void obj_free(obj_t *o)
     free(o->buf); free(o->abuf); memset(o, 0, sizeof *o);
 }
 
-static const int32_t XFM[7][9] = {
+static const int32_t XFM[8][9] = {
     { 0 }, { 0x10000, 0, 0, 0, 0x10000, 0, 0, 0, 0x10000 }, { 0x20000, 0, 0, 0, 0x20000, 0, 0, 0, 0x10000 },
     { 0, -0x10000, LH << 16, 0x10000, 0, 0, 0, 0, 0x10000 }, { 0x10000, 0, 0x8000, 0, 0x10000, 0x8000, 0, 0, 0x10000 },
     { 0x20000, 0, 0, 0, 0x10000, 0, 0, 0, 0x10000 }, { 0x20000, 0, 0, 0, 0x20000, 0, 0, 0, 0x20000 },
+    { 0x10000, 0, 0x8000, 0, 0x10000, 0x18000, 0, 0, 0x10000 },      /* differs from translate(.5,.5) in one entry of the second row only */
 };
 static const pixman_fixed_t CONV3[11] = { 3 << 16, 3 << 16, 0x1000, 0x2000, 0x1000, 0x2000, 0x4000, 0x2000, 0x1000, 0x2000, 0x1000 };
+static const pixman_fixed_t CONV3B[11] = { 3 << 16, 3 << 16, 0x1000, 0x2000, 0x1000, 0x1000, 0x2000, 0x4000, 0x2000, 0x1000, 0x2000 };   /* same header, same first row */
 
 static void apply_setter(obj_t *o, int f, int v)
 {
@@ -152,13 +159,16 @@ static void apply_setter(obj_t *o, int f, int v)
         if (v == 0) pixman_image_set_filter(im, PIXMAN_FILTER_NEAREST, NULL, 0);
         else if (v == 1) pixman_image_set_filter(im, PIXMAN_FILTER_BILINEAR, NULL, 0);
         else if (v == 2) pixman_image_set_filter(im, PIXMAN_FILTER_CONVOLUTION, CONV3, 11);
-        else pixman_image_set_filter(im, PIXMAN_FILTER_SEPARABLE_CONVOLUTION, sep_params, sep_n);
+        else if (v == 3) pixman_image_set_filter(im, PIXMAN_FILTER_SEPARABLE_CONVOLUTION, sep_params, sep_n);
+        else if (v == 4) pixman_image_set_filter(im, PIXMAN_FILTER_CONVOLUTION, CONV3B, 11);
+        else pixman_image_set_filter(im, PIXMAN_FILTER_SEPARABLE_CONVOLUTION, sep_params_b, sep_n);
         break;
     case F_REP: { static const pixman_repeat_t r[4] = { PIXMAN_REPEAT_NONE, PIXMAN_REPEAT_NORMAL, PIXMAN_REPEAT_PAD, PIXMAN_REPEAT_REFLECT }; pixman_image_set_repeat(im, r[v]); break; }
     case F_CLIP:
         if (v == 0) pixman_image_set_clip_region32(im, NULL);
         else if (v == 1) { pixman_region32_t r; pixman_region32_init_rect(&r, 1, 1, 3, 2); pixman_image_set_clip_region32(im, &r); pixman_region32_fini(&r); }
-        else { pixman_region16_t r; pixman_box16_t b[2] = { { 0, 0, 3, 2 }, { 2, 2, 5, 4 } }; pixman_region_init_rects(&r, b, 2); pixman_image_set_clip_region(im, &r); pixman_region_fini(&r); }
+        else if (v == 2) { pixman_region16_t r; pixman_box16_t b[2] = { { 0, 0, 3, 2 }, { 2, 2, 5, 4 } }; pixman_region_init_rects(&r, b, 2); pixman_image_set_clip_region(im, &r); pixman_region_fini(&r); }
+        else { pixman_region32_t r; pixman_box32_t b[2] = { { 0, 0, 5, 1 }, { 0, 1, 2, 4 } }; pixman_region32_init_rects(&r, b, 2); pixman_image_set_clip_region32(im, &r); pixman_region32_fini(&r); }
         break;
     case F_CSRC: pixman_image_set_source_clipping(im, v); break;
     case F_CCL: pixman_image_set_has_client_clip(im, v); break;
@@ -176,13 +186,22 @@ static const char *model_mismatch(const obj_t *o, const ast_t *s)
 {
     const image_common_t *c = &o->img->common;
     static const pixman_repeat_t r[4] = { PIXMAN_REPEAT_NONE, PIXMAN_REPEAT_NORMAL, PIXMAN_REPEAT_PAD, PIXMAN_REPEAT_REFLECT };
-    static const pixman_filter_t fl[4] = { PIXMAN_FILTER_NEAREST, PIXMAN_FILTER_BILINEAR, PIXMAN_FILTER_CONVOLUTION, PIXMAN_FILTER_SEPARABLE_CONVOLUTION };
+    static const pixman_filter_t fl[6] = { PIXMAN_FILTER_NEAREST, PIXMAN_FILTER_BILINEAR, PIXMAN_FILTER_CONVOLUTION, PIXMAN_FILTER_SEPARABLE_CONVOLUTION, PIXMAN_FILTER_CONVOLUTION, PIXMAN_FILTER_SEPARABLE_CONVOLUTION };
     if (c->repeat != r[s->v[F_REP]]) return "repeat";
     if (c->filter != fl[s->v[F_FIL]]) return "filter";
+    if (s->v[F_FIL] >= 2) {
+        const pixman_fixed_t *want = s->v[F_FIL] == 2 ? CONV3 : s->v[F_FIL] == 4 ? CONV3B : s->v[F_FIL] == 3 ? sep_params : sep_params_b; int wn = (s->v[F_FIL] & 1) ? sep_n : 11;
+        if (c->n_filter_params != wn || !c->filter_params || memcmp(c->filter_params, want, sizeof(pixman_fixed_t) * (size_t)wn)) return "filter_params";
+    }
     if (s->v[F_XF] <= 1) { if (c->transform) return "transform (expected NULL)"; }
     else { if (!c->transform) return "transform (NULL)"; for (int i = 0; i < 9; i++) if (c->transform->matrix[i / 3][i % 3] != XFM[s->v[F_XF]][i]) return "transform matrix"; }
     if (!!c->have_clip_region != (s->v[F_CLIP] != 0)) return "have_clip_region";
-    if (s->v[F_CLIP] && pixman_region32_n_rects((pixman_region32_t *)&c->clip_region) != s->v[F_CLIP]) return "clip_region";
+    if (s->v[F_CLIP]) {
+        static const pixman_box32_t B[3][2] = { { { 1, 1, 4, 3 }, { 0, 0, 0, 0 } }, { { 0, 0, 3, 2 }, { 2, 2, 5, 4 } }, { { 0, 0, 5, 1 }, { 0, 1, 2, 4 } } };
+        pixman_region32_t want; pixman_region32_init_rects(&want, B[s->v[F_CLIP] - 1], s->v[F_CLIP] == 1 ? 1 : 2);
+        int eq = pixman_region32_equal(&want, (pixman_region32_t *)&c->clip_region); pixman_region32_fini(&want);
+        if (!eq) return "clip_region";
+    }
     if (!!c->clip_sources != s->v[F_CSRC]) return "clip_sources";
     if (!!c->client_clip != s->v[F_CCL]) return "client_clip";
     if (!!c->component_alpha != s->v[F_CA]) return "component_alpha";
@@ -298,13 +317,13 @@ static void add_trans(space_t *sp, int f, int nv) { for (int v = 0; v < nv; v++)
 static void make_trans(space_t *sp, int kind)
 {
     sp->ntrans = 0;
-    add_trans(sp, F_XF, 7); add_trans(sp, F_REP, 4);
+    add_trans(sp, F_XF, 8); add_trans(sp, F_REP, 4);
     if (IS_BITS(kind)) {
-        add_trans(sp, F_FIL, 4); add_trans(sp, F_CLIP, 3); add_trans(sp, F_CSRC, 2); add_trans(sp, F_CCL, 2); add_trans(sp, F_AMAP, 3); add_trans(sp, F_CA, 2);
+        add_trans(sp, F_FIL, 6); add_trans(sp, F_CLIP, 4); add_trans(sp, F_CSRC, 2); add_trans(sp, F_CCL, 2); add_trans(sp, F_AMAP, 3); add_trans(sp, F_CA, 2);
         add_trans(sp, F_ACC, 2); add_trans(sp, F_DITH, 3); add_trans(sp, F_DOFF, 2);
-        if (kind == K_C8) add_trans(sp, F_PAL, 2);
+        if (kind == K_C8) add_trans(sp, F_PAL, 3);
     } else {
-        add_trans(sp, F_FIL, 2); add_trans(sp, F_CLIP, 3); add_trans(sp, F_CSRC, 2); add_trans(sp, F_CCL, 2); add_trans(sp, F_CA, 2);
+        add_trans(sp, F_FIL, 2); add_trans(sp, F_CLIP, 4); add_trans(sp, F_CSRC, 2); add_trans(sp, F_CCL, 2); add_trans(sp, F_CA, 2);
     }
 }
 /* universe = product of the listed per-field value counts (values 0..n-1 of each field) */
@@ -507,7 +526,7 @@ int main(int argc, char **argv)
               "dither offset, palette); transition = one pixman_image_set_* call with one value. 'everywhere-*' spaces: every state of the stated universe is built on a long-lived image by one setter per "
               "non-default field with a draw (the 7 probes = 7 distinct fast-path cache keys, all still resident in the 8-entry cache when the same composite recurs after the next setter) after every setter, then every transition is applied and the image probed (as source SRC, as "
               "source OVER, as mask, as destination OVER, as destination masked ATOP with storage and alpha map read back raw, as source and as mask with the request inside the image) twice; 'depth3-*' spaces: every setter sequence of length 3 from a new image with "
-              "every draw/no-draw pattern, judged at every draw and at the end (thorough: also length 4 on the a8r8g8b8 image with 4 draw patterns). Oracle: byte equality with the same probes of a freshly created image that received each non-default property of the final "
+              "every draw/no-draw pattern, judged at every draw and at the end (thorough: also length 4 on the a8r8g8b8 image with 2 draw patterns). Oracle: byte equality with the same probes of a freshly created image that received each non-default property of the final "
               "abstract state once, in another fixed order, and was never drawn before; plus the library's own fields must hold the abstract state. transitions = setter applications judged; states = distinct "
               "abstract states (universe sizes + states reachable in <= 3 setters); non-trivial = the judged setter changed at least one probe's output relative to the draw before it.";
     vf_assume("the accessor callbacks are deterministic xor-1 read/write functions (not the identity, so a stale direct-memory fetcher shows); pixel storage is restored after destination probes");
@@ -543,26 +562,28 @@ int main(int argc, char **argv)
         bl += snprintf(bounds + bl, sizeof bounds - bl, "%s%s: %d states x %d transitions x %d construction variant(s) x 2 cfgs", i ? "; " : "everywhere: ", KINDN[sp->kind], sp->nstates, sp->ntrans, sp->nvariants);
     }
     static const uint8_t PAT3[8] = { 0, 1, 2, 3, 4, 5, 6, 7 };
-    static const uint8_t PAT4[4] = { 0, 15, 5, 10 };      /* no intermediate draws / a draw after every setter / alternating */
+    static const uint8_t PAT3Q[4] = { 0, 7, 5, 2 };
+    static const uint8_t PAT4[2] = { 15, 10 };      /* a draw after every setter (and before the first) / draws after the 1st and 3rd setter only */
     static depth_t DC[16]; int ndc = 0;
     for (int i = 0; i < np; i++) {
         space_t *sp = &SP[i];
         depth_t *dc = &DC[ndc++]; dc->sp = sp; dc->depth = 3; dc->npat = 8; dc->pats = PAT3;
+        if (!th && sp->kind != K_ARGB) { dc->npat = 4; dc->pats = PAT3Q; }       /* quick: indexed and gradient images with 4 of the 8 draw patterns */
         snprintf(label, sizeof label, "depth3-%s", KINDN[sp->kind]);
-        uint64_t N = (uint64_t)sp->ntrans * sp->ntrans * sp->ntrans * 8 * sp->ncfg;
+        uint64_t N = (uint64_t)sp->ntrans * sp->ntrans * sp->ntrans * (uint64_t)dc->npat * sp->ncfg;
         vf_space_run(label, N, depth_case, dc);
         ast_t z; memset(&z, 0, sizeof z); reach_rec(sp, z, 3);
         for (int k = 0; k < sp->nstates; k++) stset_add(sp->kind, &sp->states[k]);
-        bl += snprintf(bounds + bl, sizeof bounds - bl, "%s%s: %d^3 sequences x 8 draw patterns x 2 cfgs", i ? "; " : " || depth3: ", KINDN[sp->kind], sp->ntrans);
+        bl += snprintf(bounds + bl, sizeof bounds - bl, "%s%s: %d^3 sequences x %d draw patterns x 2 cfgs", i ? "; " : " || depth3: ", KINDN[sp->kind], sp->ntrans, dc->npat);
     }
     if (th) {
         space_t *sp = &SP[0];
-        depth_t *dc = &DC[ndc++]; dc->sp = sp; dc->depth = 4; dc->npat = 4; dc->pats = PAT4;
+        depth_t *dc = &DC[ndc++]; dc->sp = sp; dc->depth = 4; dc->npat = 2; dc->pats = PAT4;
         snprintf(label, sizeof label, "depth4-%s", KINDN[sp->kind]);
-        uint64_t N = (uint64_t)sp->ntrans * sp->ntrans * sp->ntrans * sp->ntrans * 4 * sp->ncfg;
+        uint64_t N = (uint64_t)sp->ntrans * sp->ntrans * sp->ntrans * sp->ntrans * 2 * sp->ncfg;
         vf_space_run(label, N, depth_case, dc);
         ast_t z; memset(&z, 0, sizeof z); reach_rec(sp, z, 4);
-        bl += snprintf(bounds + bl, sizeof bounds - bl, " || depth4: %s: %d^4 sequences x 4 draw patterns x 2 cfgs", KINDN[sp->kind], sp->ntrans);
+        bl += snprintf(bounds + bl, sizeof bounds - bl, " || depth4: %s: %d^4 sequences x 2 draw patterns x 2 cfgs", KINDN[sp->kind], sp->ntrans);
     }
     if (!vf_replaying()) vf_count_states(stset_n);
     snprintf(vf->extra_json, sizeof vf->extra_json, "\"universe_states\": %llu, \"distinct_abstract_states_universe_plus_reachable_from_init\": %llu, \"composites_executed\": %llu",
